@@ -65,7 +65,7 @@ class Conv2dGRU(nn.Module):
         for idx in range(num_layers + 1):
             in_ch = in_channels if idx == 0 else (1 + min(idx, dense_connect)) * hidden_channels
             out_ch = hidden_channels if idx < num_layers else out_channels
-            padding = 0 if replication_padding else (2 if idx == 0 else 1)
+            padding = 0 if replication_padding else (2 if idx in (0, 1) else 1)
             block: List[nn.Module] = []
             if replication_padding:
                 if idx == 1:
